@@ -23,12 +23,20 @@ SRV = "rtr::server::Connection::<Sock, Source>::"
 PDU = "rtr::pdu::"
 
 
+def _nogen(x):
+    prev = None
+    while prev != x:
+        prev = x
+        x = re.sub(r"(::)?<[^<>]*>", "", x)
+    return x
+
+
 def coroutine_of(f, ga_str):
-    m = re.search(r"\{async fn body of ([^}]+?)\(\)\}", ga_str)
+    m = re.search(r"\{async fn body of (.+?)\(\)\}", ga_str)
     if not m:
         return None
-    name = re.sub(r"<[^<>]*>$", "", m.group(1))
-    cands = [n for n in f.bodies if n.endswith("::{closure#0}") and re.sub(r"::<[^>]*>", "", n[:-len("::{closure#0}")]) == re.sub(r"::<[^>]*>", "", name)]
+    name = _nogen(m.group(1))
+    cands = [n for n in f.bodies if n.endswith("::{closure#0}") and _nogen(n[:-len("::{closure#0}")]) == name]
     return cands[0] if cands else None
 
 
@@ -51,11 +59,27 @@ def multi_step_reads(f, name, seen=None, depth=0):
             # a single `read` is cancel safe; progress kept across reads must live outside the future
             from engine.sym import roots
             buf = K.arg_terms(c)[1]
+            sy = K.sym_of(b)
+
+            def outside(r, depth=0):
+                # storage / cursor that survives the future: an upvar (the async fn's parameter), or a local that
+                # merely holds a reference moved out of one; a plain value local (`let mut pos = *len`) dies with it
+                if r[0] == "upvar" or r[0] in ("const", "static", "cdef"):
+                    return True
+                if r[0] in ("var", "mvar") and depth < 4:
+                    ty = b.local_ty(r[2])
+                    if not ty.startswith("&"):
+                        return False
+                    defs = [d for _, d in sy.defs_of_var(r[2])]
+                    return bool(defs) and all(all(outside(x, depth + 1) for x in roots(strip_deep(d))) for d in defs)
+                return False
             rts = roots(buf)
-            outside = any(r[0] == "upvar" for r in rts) and not any(r[0] == "var" for r in rts)
-            in_loop = any(c.bb in comp for comp in b.cycles_sccs() if len(comp) > 11)
-            if in_loop and not outside:
-                out.append((name, "read into a buffer owned by the future, in a loop", c.where()))
+            bad_roots = [r for r in rts if not outside(r)]
+            # the block that *creates* the read future lies on a cycle (the poll loop of a single await does not)
+            in_loop = any(c.bb in comp for comp in b.cycles_sccs())
+            if in_loop and bad_roots:
+                out.append((name, "read in a loop whose buffer position is held in the future's own state (%s)"
+                            % ", ".join(str(r[1]) for r in bad_roots), c.where()))
         callee = c.res
         if callee in f.bodies and f.fns.get(callee, {}).get("async"):
             out += multi_step_reads(f, callee + "::{closure#0}", seen, depth + 1)
@@ -84,6 +108,8 @@ def run(ctx):
                 for i, g in enumerate(c.ga):
                     co = coroutine_of(f, g)
                     if co is None:
+                        if "async" in g:
+                            ctx.missing("R-ASYNC", "select arm %d of %s" % (i, short(root_fn(f, n))), "coroutine body of " + g[:120])
                         continue
                     reads = multi_step_reads(f, co)
                     unsafe_reads = reads
